@@ -419,7 +419,8 @@ impl Check for C11 {
                 if !is_sub(&multiset(&must), &gm) {
                     let lost: Vec<_> = must.iter().filter(|k| !gm.contains_key(*k)).take(3).collect();
                     let open_q = q.ast.patterns.iter().any(|(it, _)| query::item_has_quantifier(it));
-                    ctx.fail(format!("C11:range:{kind}:lost_match{}", if wild_root { ":wildcard_root" } else if open_q { ":open_quantifier" } else { "" }), format!("{} lost matches that lie in the range: {:?} ({} returned, {} required)\n{hdr}", cfg_desc.join(", "), lost, got.len(), must.len()));
+                    let wild_before_anchor = q.ast.patterns.iter().any(|(it, _)| crate::checks::c05::wildcard_child_before_anchor(it));
+                    ctx.fail(format!("C11:range:{kind}:lost_match{}", if wild_root { ":wildcard_root" } else if open_q { ":open_quantifier" } else if wild_before_anchor { ":wildcard_child_before_anchor" } else { "" }), format!("{} lost matches that lie in the range: {:?} ({} returned, {} required)\n{hdr}", cfg_desc.join(", "), lost, got.len(), must.len()));
                     return;
                 }
                 if got.len() < m_all.len() && !got.is_empty() {
